@@ -250,6 +250,9 @@ func (p *storeProp) Gen(r *Rand, tier string, idx int) any {
 		} else {
 			op = SOp{Op: pick(r, readers), Node: r.Intn(nn), Ref: randRef()}
 		}
+		if sp.Tasks == 1 && sp.Kind == "oci" && sp.AutoSave && p.id == "C07" && op.Op == "push" && r.Chance(0.1) {
+			op.FailMut = r.Range(1, 6) // Push only: a Delete that fails halfway is allowed to leave a stored manifest unindexed
+		}
 		if sp.Tasks == 1 && sp.Kind == "oci" && sp.AutoSave && p.id == "C08" && (op.Op == "push" || op.Op == "tag" || op.Op == "retag" || op.Op == "untag" || op.Op == "delete" || op.Op == "gc" || op.Op == "saveindex") && r.Chance(0.1) {
 			op.FailMut = r.Range(1, 4)
 		}
@@ -359,16 +362,17 @@ func opUsesNode(op string) bool {
 // ---------- run ----------
 
 type storeRun struct {
-	p      *storeProp
-	rc     *RunCtx
-	sp     *StoreParams
-	g      *Graph
-	model  *SModel
-	store  any
-	dir    string
-	info   *RunInfo
-	closer func()
-	gcRan  bool
+	faulted bool // a disk error was injected into an earlier operation (C07 continues, without reopen comparisons)
+	p       *storeProp
+	rc      *RunCtx
+	sp      *StoreParams
+	g       *Graph
+	model   *SModel
+	store   any
+	dir     string
+	info    *RunInfo
+	closer  func()
+	gcRan   bool
 	// nodes the store's in-memory predecessor graph holds as nodes (only used to
 	// label a known finding, never to decide a verdict)
 	graphKnown map[int]bool
@@ -527,6 +531,9 @@ func (sr *storeRun) sequential() *Verdict {
 		for i, op := range sp.Ops {
 			step, lastOp = i, op
 			simos.SetBudget(diskBudget)
+			if op.Op == "reopen" && sr.faulted {
+				continue
+			}
 			if op.Op == "reopen" {
 				if v = sr.reopen(op.How); v != nil {
 					return
@@ -576,8 +583,15 @@ func (sr *storeRun) sequential() *Verdict {
 					simrt.Observe(func() { d = checkLayout(sr.dir) })
 					if d != "" {
 						v = violation("layout-invalid", "", "after step %d %s, in which disk operation %d failed with EIO (result %s): %s\nhistory: %v", i, op, op.FailMut, got, d, opsString(sp.Ops[:i+1]))
+						return
 					}
-					return
+					if sr.p.id != "C07" {
+						return
+					}
+					// C07 goes on: its ground truth is what the store itself holds, so a manifest that
+					// a failed Push left in the store must be reported as predecessor like any other.
+					// (What the disk holds may now differ from the live store: no more reopen comparisons.)
+					sr.faulted = true
 				}
 			}
 			useModel := sr.p.id == "C06" || sr.p.id == "C09"
